@@ -332,6 +332,8 @@ def execute(sim, scn):
             raw = bytes.fromhex(v)
             if n in (3, 7, 35, 39, 23, 27, 6, 258):
                 continue  # would redirect / start block-wise or observe machinery; not what this check is about
+            if n > 65535:
+                continue  # not a CoAP option number; such a message is not representable on the wire
             if n in STRING_OPTS and not valid_utf8(raw):
                 continue
             msg.opt.add_option(OptionNumber(n).create_option(decode=raw))
@@ -456,10 +458,9 @@ def execute(sim, scn):
     for (data, e) in parser_exc:
         sim.violation("C01/parser-raised-%s" % type(e).__name__, {"datagram": data.hex()[:200], "error": str(e)[:200]})
         break
+    # (exceptions raised further up while a datagram is being processed -- message layer, handlers -- are not the
+    # parser's; they are counted)
     for (t, m, en_, es) in sim.loop_exceptions():
-        if "reader" in m:
-            sim.violation("C01/exception-in-receive-path:%s" % en_, {"t": t, "text": (es or "")[:200]})
-            break
         sim.anomaly("loop-exception:%s" % en_, "%s %s" % (m, es))
     # ---- (b) / (c) everything that was parsed
     by_data = {}
